@@ -289,7 +289,8 @@ def judge_v15(ctx, L, res, em, k, scls, sentinel, ecls, explen, path, wit):
             key = "v15:wrong-plaintext:%s%s" % (gc, ksfx)
             what = "a correctly padded message was not returned exactly"
         if k == 11:
-            key = "v15:k11:message-not-returned"
+            key, what = "v15:k11:message-not-returned", \
+                "modulus of 11 bytes (RFC 8017 admits k >= 11): the empty message encrypts but is not returned by decrypt()"
         ctx.check(False, key, what, w)
         return False
     # the sentinel is due
@@ -313,7 +314,8 @@ def judge_v15(ctx, L, res, em, k, scls, sentinel, ecls, explen, path, wit):
         key = "v15:sentinel-not-returned:%s:%s" % (kcls, gc)
         what = "bad padding (or unexpected length): decrypt() did not return the caller's sentinel"
     if k == 11:
-        key = "v15:k11:sentinel-not-returned"
+        key, what = "v15:k11:sentinel-not-returned", \
+            "modulus of 11 bytes: bad padding / unexpected length does not yield the caller's sentinel"
     ctx.check(False, key, what, w)
     return False
 
